@@ -151,6 +151,8 @@ Qed.
 Definition pairs_sym (a b : value) : Prop :=
   forall x y, In x (numbers_of a) -> In y (numbers_of b) -> num_eqb x y = num_eqb y x.
 
+Lemma booleqb_sym : forall x y : bool, Bool.eqb x y = Bool.eqb y x.
+Proof. destruct x, y; reflexivity. Qed.
 Lemma bytes_eqb_sym : forall s t, bytes_eqb s t = bytes_eqb t s.
 Proof. induction s; destruct t; try reflexivity. cbn [bytes_eqb]. rewrite N.eqb_sym, IHs. reflexivity. Qed.
 
@@ -174,7 +176,7 @@ Proof.
     destruct vb as [| | |m cm|t qt|ys s' b'|ks' vs'|]; try reflexivity.
   - cbn [veq]. apply HP; cbn; auto.
   - cbn [veq]. apply bytes_eqb_sym.
-  - rewrite !veq_list. rewrite (Z.eqb_sym s), (Bool.eqb_sym b). f_equal. f_equal.
+  - rewrite !veq_list. rewrite (Z.eqb_sym s), (booleqb_sym b). f_equal. f_equal.
     apply all2_sym; [exact H|]. intros n0 m0 Hn Hm. apply HP; cbn [numbers_of]; assumption.
   - cbn [veq]. destruct xs, ks'; reflexivity.
   - cbn [veq]. destruct ks, ys; reflexivity.
